@@ -168,9 +168,15 @@ func (collection *linkCollectionImpl) EntityDeleted(tx *bbolt.Tx, id string) err
 	fieldBucket := collection.getFieldBucketForStringId(tx, id)
 
 	if !fieldBucket.HasError() {
+		// the linked ids are collected before anything is removed: the other side may live in the same store (or, for
+		// an entity linked to itself, in this very bucket), and a bolt cursor does not survive writes next to it
+		var keys [][]byte
 		cursor := fieldBucket.Cursor()
 		for val, _ := cursor.First(); val != nil; val, _ = cursor.Next() {
 			_, key := GetTypeAndValue(val)
+			keys = append(keys, append([]byte(nil), key...))
+		}
+		for _, key := range keys {
 			// We don't need to delete the local entry b/c the parent bucket is getting deleted
 			if err := collection.otherField.RemoveLink(tx, key, bId); err != nil {
 				return err
